@@ -11,7 +11,7 @@ import lib
 from lib import sx, sxo, call
 
 REAL = ["2025-06-18", "2025-03-26", "2024-11-05"]
-INVENTED = ["2026-01-01", "1999-02-30", "2025-06-17", "DRAFT-2026-v1"]   # the 2nd is date-SHAPED but no calendar day, the last not date-shaped: a version is any string
+INVENTED = ["2026-02-30", "1999-02-30", "2025-06-17", "DRAFT-2026-v1"]   # the first two are date-SHAPED but no calendar days (one after, one before the batching cutoff), the last is not date-shaped: a version is any string
 UNIVERSE = REAL + INVENTED
 
 SERVER_INFO = {"name": "peer", "version": "0.1"}
